@@ -17,7 +17,8 @@ META = {
              'as the slice converter applies them.'
              " Round 12: results handed out earlier are compared again after the transformer converted further arrays of the same shape."
              " Round 16: sub-check type_grid (every input type x output type x form x copy mode with the pair's boundary values)."
-             " Round 17: one array object converted twice (lent with preserve_input=False, refilled, then preserve_input=True)."),
+             " Round 17: one array object converted twice (lent with preserve_input=False, refilled, then preserve_input=True)."
+             " Round 23: the floating-point neighbours of ties (k + 0.5 plus or minus one unit in the last place of the input type, or 2^-40 .. 3e-4), in the strategy and in type_grid."),
     "trusted_base": ["vlib/refs/dtype_ref.py (Fraction arithmetic)"],
     "assumptions": ["finite values only; float64 values beyond the float32 "
                     "range are not offered to a float32 target"],
@@ -73,7 +74,15 @@ def value_strategy(in_dtype, out):
             st.sampled_from(anchors).map(fit), near,
             st.floats(allow_nan=False, allow_infinity=False,
                       width=width).map(fit),
-            st.integers(-1000, 70000).map(lambda k: fit(k + 0.5)))
+            st.integers(-1000, 70000).map(lambda k: fit(k + 0.5)),
+            # the neighbours of a tie, one unit in the last place (of the
+            # input type) or a little more away from it: rounding in a
+            # narrower type first would move them onto the tie
+            st.builds(near_tie, st.one_of(
+                st.sampled_from([0, 1, 2, 127, 254, 255, 30001, 65534]),
+                st.integers(-5, 70000)),
+                st.sampled_from(["ulp", "ulp", 2.0 ** -40, 2.0 ** -30, 1e-9,
+                                 3e-4]), st.booleans(), st.just(width)))
     lo, hi = dtype_ref.INT_RANGE[in_dtype]
     anchors = {lo, lo + 1, -1, 0, 1, hi - 1, hi, 2 ** 53 - 1, 2 ** 53,
                2 ** 53 + 1, 2 ** 24 + 1, 2 ** 63, 2 ** 63 - 1}
@@ -256,6 +265,15 @@ def check_case(ctx, case):
     return nontrivial
 
 
+def near_tie(k, d, up, width):
+    """The float of the given width next to k + 0.5 (d == "ulp") or d away."""
+    ft = np.float32 if width == 32 else np.float64
+    t = ft(k + 0.5)
+    if d == "ulp":
+        return float(np.nextafter(t, ft(np.inf if up else -np.inf)))
+    return float(ft(float(t) + (d if up else -d)))
+
+
 def anchor_values(in_dtype, out):
     """The boundary values of the pair (type limits of both types, ties,
     2^24 / 2^53 / 2^63 neighbours), as the random strategy uses them."""
@@ -271,6 +289,9 @@ def anchor_values(in_dtype, out):
                     2.0 ** 53, 2.0 ** 53 + 2, 2.0 ** 63, 3e38, -3e38]
             if in_dtype == "float64":
                 vals += [1e300, -1e300]
+            w = 32 if in_dtype == "float32" else 64
+            vals += [near_tie(k, "ulp", up, w) for k in (0, 1, 2, 254, 30001)
+                     for up in (False, True)]
         out_vals = []
         for x in vals:
             if in_dtype == "float32":
